@@ -157,9 +157,9 @@ structure SideOK (w : World) (env : Env) (s : Nat) (f : Funds) (tx : Tx) : Prop 
   wired : SatA.WiredPools w
   /-- the sender is not address 0, the engine's "no record" sentinel — `sat_C05`. -/
   nonZero : SatC.NonZeroSender s
-  /-- precondition of C11: no native coins attached to PayFunding — `sat_C11` and `C11_tags` (without it the
-      three `funding-payment-…` clauses fail: `SatEWitness.c11_needs_noFunds`). -/
-  noFunds : SatC11.NoFundsAttached w f tx
+  /- (The former field `noFunds : SatC11.NoFundsAttached w f tx` — no native coins attached to PayFunding — is
+     gone: `Spec.C11.check` tolerates attached coins, `SatEWitness.c11_funds_attached_ok`.  No field depends on
+     the attached funds `f` any more; the parameter stays so that the statements keep their shape.) -/
 
 /-! ## 4. preservation -/
 
@@ -257,7 +257,7 @@ theorem AllInv.noZeroVamm {w : World} (h : AllInv w) : Mirror.NoZeroVamm w := h.
 /-- C11 under its precondition (no coins attached to PayFunding; a maintenance margin ratio of 0 is allowed) -/
 theorem allInv_C11 {w : World} (hI : AllInv w) {env : Env} {s : Nat} {f : Funds} {tx : Tx}
     (hs : SideOK w env s f tx) : Spec.C11.check (modelStep w env s f tx) = [] :=
-  SatE.sat_C11 w env s f tx hI.wf hI.buffer hs.noFunds (senderOutside hs.wired hs.user) hI.noZeroVamm
+  SatE.sat_C11 w env s f tx hI.wf hI.buffer (senderOutside hs.wired hs.user) hI.noZeroVamm
 
 /-- assembling `allChecks`: a bound on the tags of each of the 21 entries bounds the tags of the list -/
 theorem allChecks_sub (st : Step) (L : List String) (hc : CleanChecks st)
@@ -318,7 +318,7 @@ theorem reachable_clean (w : World) (hr : Reachable w) (env : Env) (s : Nat) (f 
     (hs : SideOK w env s f tx) : CleanChecks (modelStep w env s f tx) :=
   allInv_clean_core (reachable_allInv hr) f hs.toPresOK hs.wired hs.nonZero
 
-/-- C11 is clean too (its precondition `noFunds` is a field of `SideOK`) -/
+/-- C11 is clean too (it has no precondition of its own any more: attached coins are tolerated) -/
 theorem reachable_C11 (w : World) (hr : Reachable w) (env : Env) (s : Nat) (f : Funds) (tx : Tx)
     (hs : SideOK w env s f tx) : Spec.C11.check (modelStep w env s f tx) = [] :=
   allInv_C11 (reachable_allInv hr) hs
@@ -488,7 +488,6 @@ theorem side0 : SideOK a0 ⟨2, 1000⟩ 100 ⟨0, false⟩ open1 where
   clock := by unfold SatA.ClockMono; decide
   wired := ⟨rfl, rfl, rfl⟩
   nonZero := by unfold SatC.NonZeroSender; decide
-  noFunds := by intro v h; cases h
 
 set_option maxRecDepth 100000 in
 /-- … and so does the second -/
@@ -499,7 +498,6 @@ theorem side1 : SideOK a1 ⟨3, 2000⟩ 100 ⟨0, false⟩ open2 where
   clock := by unfold SatA.ClockMono; decide +kernel
   wired := ⟨by decide +kernel, by decide +kernel, by decide +kernel⟩
   nonZero := by unfold SatC.NonZeroSender; decide
-  noFunds := by intro v h; cases h
 
 /-- `a1` (a 10x long is open) and `a2` (closed again by an opposite order) are reachable -/
 theorem a1_reachable : Reachable a1 := Reachable.step (Reachable.init a0_deployed) side0
@@ -518,7 +516,6 @@ theorem side2 : SideOK a2 ⟨4, 3000⟩ 100 ⟨0, false⟩ open3 where
   clock := by unfold SatA.ClockMono; decide +kernel
   wired := ⟨by decide +kernel, by decide +kernel, by decide +kernel⟩
   nonZero := by unfold SatC.NonZeroSender; decide
-  noFunds := by intro v h; cases h
 
 /-- … so the capstone applies to it: an instance of `reachable_sat` with every hypothesis discharged -/
 theorem a2_instance :
